@@ -52,7 +52,7 @@ theorem spine_assign (rest : List Ev) :
     have e2 : (A ++ [Ev.tombstone, Ev.token SyntaxKind.IDENT 1, Ev.finish]).length = A.length + 3 := by simp
     simp only [List.cons_append, chain, h, get_mid, set_mid]
     rw [e1, ← e2]
-    simp only [chain, get_mid, set_mid]
+    simp only [get_mid, set_mid]
     cases fp <;> simp [e2]
   · intro fp; cases fp <;> simp [cntFp, Ev.hasFp] <;> omega
 
@@ -213,6 +213,9 @@ theorem go_callee (rest : List Ev) (n : Nat) (A R : List Ev) (out : List Step) :
   simp [enters, List.filter]
   rfl
 
+theorem GoSeg.cast {a a' : List Ev} {sa sa' : List Step} (h : GoSeg a sa) (ha : a = a') (hs : sa = sa') :
+    GoSeg a' sa' := by subst ha; subst hs; exact h
+
 /-! ### the pieces of statements -/
 
 theorem goSeg_qubits (n : Nat) : GoSeg (qubitEvs n) (qubitNodes n) := by
@@ -239,11 +242,36 @@ theorem goSeg_ty (ty : Ty) (w : Option E) : GoSeg (tyEvs ty w) (tyNodes ty w) :=
 theorem goSeg_block {inner : List Ev} {st : List Step} (h : GoSeg inner st) : GoSeg (blockEvs inner) (blockNodes st) :=
   (GoSeg.start _ (by decide)).append ((GoSeg.token _ _).append (h.append ((GoSeg.token _ _).append GoSeg.finish)))
 
+
+theorem goSeg_params (n : Nat) : GoSeg (paramEvs n) (paramNodes n) := by
+  induction n with
+  | zero => exact (GoSeg.start _ (by decide)).append ((GoSeg.token _ _).append GoSeg.finish)
+  | succ n ih =>
+    exact (GoSeg.start _ (by decide)).append ((GoSeg.token _ _).append (GoSeg.finish.append ((GoSeg.token _ _).append ih)))
+
+theorem goSeg_typed1 (p : PTy) : GoSeg [Ev.start .TYPED_PARAM none, .start .SCALAR_TYPE none, .token p.kind 1, .finish,
+      .start .NAME none, .token .IDENT 1, .finish, .finish]
+    [Step.enter .TYPED_PARAM, .enter .SCALAR_TYPE, .token p.kind 1, .exit, .enter .NAME, .token .IDENT 1, .exit, .exit] :=
+  (GoSeg.start .TYPED_PARAM (by decide)).append ((GoSeg.start .SCALAR_TYPE (by decide)).append ((GoSeg.token p.kind 1).append
+    (GoSeg.finish.append ((GoSeg.start .NAME (by decide)).append ((GoSeg.token .IDENT 1).append (GoSeg.finish.append GoSeg.finish))))))
+
+theorem goSeg_typed (ps : List PTy) : GoSeg (typedEvs ps) (typedNodes ps) := by
+  induction ps with
+  | nil => exact GoSeg.nil
+  | cons p ps ih =>
+    cases ps with
+    | nil => exact goSeg_typed1 p
+    | cons q qs => exact GoSeg.cast ((goSeg_typed1 p).append ((GoSeg.token .COMMA 1).append ih)) (by simp [typedEvs]) (by simp [typedNodes])
+
+theorem goSeg_retSig (ret : Option Ty) : GoSeg (retEvs ret) (retNodes ret) := by
+  cases ret with
+  | none => exact GoSeg.nil
+  | some ty =>
+    exact (GoSeg.start .RETURN_SIGNATURE (by decide)).append ((GoSeg.token .THIN_ARROW 2).append
+      ((GoSeg.start .SCALAR_TYPE (by decide)).append ((GoSeg.token ty.kind 1).append (GoSeg.finish.append GoSeg.finish))))
+
 theorem goSeg_exprStmtTail : GoSeg (Ev.tombstone :: [.token .SEMICOLON 1, .finish]) [.token .SEMICOLON 1, .exit] :=
   GoSeg.tomb.append ((GoSeg.token _ _).append GoSeg.finish)
-
-theorem GoSeg.cast {a a' : List Ev} {sa sa' : List Step} (h : GoSeg a sa) (ha : a = a') (hs : sa = sa') :
-    GoSeg a' sa' := by subst ha; subst hs; exact h
 
 theorem goSeg_sbody' (e : E) : GoSeg (sbody e) (snodes e) := goSeg_sbody e (fun e' _ => goSeg_evs e')
 
@@ -312,6 +340,19 @@ theorem goSeg_S : ∀ st : Stmt, GoSeg (evsS st) (nodesS st)
   | .ifElse c thn els => GoSeg.cast ((GoSeg.start .IF_STMT (by decide)).append ((GoSeg.token .IF_KW 1).append ((GoSeg.token .L_PAREN 1).append ((goSeg_evs c).append ((GoSeg.token .R_PAREN 1).append ((goSeg_block (goSeg_L thn)).append ((GoSeg.token .ELSE_KW 1).append ((goSeg_block (goSeg_L els)).append (GoSeg.finish))))))))) (by simp [evsS, blockEvs]) (by simp [nodesS, blockNodes])
   | .whileS c body => GoSeg.cast ((GoSeg.start .WHILE_STMT (by decide)).append ((GoSeg.token .WHILE_KW 1).append ((GoSeg.token .L_PAREN 1).append ((goSeg_evs c).append ((GoSeg.token .R_PAREN 1).append ((goSeg_block (goSeg_L body)).append (GoSeg.finish))))))) (by simp [evsS, blockEvs]) (by simp [nodesS, blockNodes])
   | .forS ty lo hi body => GoSeg.cast ((GoSeg.start .FOR_STMT (by decide)).append ((GoSeg.token .FOR_KW 1).append ((GoSeg.start .SCALAR_TYPE (by decide)).append ((GoSeg.token ty.kind 1).append ((GoSeg.finish).append ((GoSeg.start .NAME (by decide)).append ((GoSeg.token .IDENT 1).append ((GoSeg.finish).append ((GoSeg.token .IN_KW 1).append ((GoSeg.start .FOR_ITERABLE (by decide)).append ((GoSeg.start .RANGE_EXPR (by decide)).append ((GoSeg.token .L_BRACK 1).append ((goSeg_evs lo).append ((GoSeg.token .COLON 1).append ((goSeg_evs hi).append ((GoSeg.token .R_BRACK 1).append ((GoSeg.finish).append ((GoSeg.finish).append ((goSeg_block (goSeg_L body)).append (GoSeg.finish)))))))))))))))))))) (by simp [evsS, blockEvs]) (by simp [nodesS, blockNodes])
+  | .gateDef none nq body => GoSeg.cast ((GoSeg.start .GATE (by decide)).append ((GoSeg.token .GATE_KW 1).append ((GoSeg.start .NAME (by decide)).append ((GoSeg.token .IDENT 1).append ((GoSeg.finish).append ((GoSeg.start .PARAM_LIST (by decide)).append ((goSeg_params nq).append ((GoSeg.finish).append ((goSeg_block (goSeg_L body)).append (GoSeg.finish)))))))))) (by simp [evsS, blockEvs]) (by simp [nodesS, blockNodes])
+  | .gateDef (some k) nq body => GoSeg.cast ((GoSeg.start .GATE (by decide)).append ((GoSeg.token .GATE_KW 1).append ((GoSeg.start .NAME (by decide)).append ((GoSeg.token .IDENT 1).append ((GoSeg.finish).append ((GoSeg.start .PARAM_LIST (by decide)).append ((GoSeg.token .L_PAREN 1).append ((goSeg_params k).append ((GoSeg.token .R_PAREN 1).append ((GoSeg.finish).append ((GoSeg.start .PARAM_LIST (by decide)).append ((goSeg_params nq).append ((GoSeg.finish).append ((goSeg_block (goSeg_L body)).append (GoSeg.finish))))))))))))))) (by simp [evsS, blockEvs]) (by simp [nodesS, blockNodes])
+  | .defS ps ret body => GoSeg.cast ((GoSeg.start .DEF (by decide)).append ((GoSeg.token .DEF_KW 1).append ((GoSeg.start .NAME (by decide)).append ((GoSeg.token .IDENT 1).append ((GoSeg.finish).append ((GoSeg.start .TYPED_PARAM_LIST (by decide)).append ((GoSeg.token .L_PAREN 1).append ((goSeg_typed ps).append ((GoSeg.token .R_PAREN 1).append ((GoSeg.finish).append ((goSeg_retSig ret).append ((goSeg_block (goSeg_L body)).append (GoSeg.finish))))))))))))) (by simp [evsS, blockEvs]) (by simp [nodesS, blockNodes])
+  | .ret none =>
+    GoSeg.cast (goSeg_spine_wrap (spine_prim .RETURN_EXPR (by decide) [Ev.token .RETURN_KW 1, Ev.finish])
+      (Nat.zero_le _) .EXPR_STMT (by decide) [Ev.token .SEMICOLON 1, Ev.finish]
+      (GoSeg.cast ((GoSeg.tomb).append ((GoSeg.token .RETURN_KW 1).append (GoSeg.finish))) (by simp) rfl) goSeg_exprStmtTail)
+      (by simp [evsS, exprStmtTail]) (by simp [nodesS])
+  | .ret (some e) =>
+    GoSeg.cast (goSeg_spine_wrap (spine_prim .RETURN_EXPR (by decide) (Ev.token .RETURN_KW 1 :: (evs e ++ [Ev.finish])))
+      (Nat.zero_le _) .EXPR_STMT (by decide) [Ev.token .SEMICOLON 1, Ev.finish]
+      (GoSeg.cast ((GoSeg.tomb).append ((GoSeg.token .RETURN_KW 1).append ((goSeg_evs e).append (GoSeg.finish)))) (by simp) rfl) goSeg_exprStmtTail)
+      (by simp [evsS, exprStmtTail, evs_length]) (by simp [nodesS])
 theorem goSeg_L : ∀ ss : Stmts, GoSeg (evsL ss) (nodesL ss)
   | .nil => GoSeg.nil
   | .cons st ss => (goSeg_S st).append (goSeg_L ss)
